@@ -260,7 +260,7 @@ prop('C18', opts={'abstract_fp': True, 'pool_mode': 'hit'},
                  'splits': [{'op': o} for o in range(8)],
                  'covers': ['get-set', 'append-sample', 'read-write', 'striped', 'append-within-capacity', 'channel-view', 'slice', 'pool-cycle']}] +
      [{'name': 'C18_' + fn, 'types': {'quick': conv_pairs(fn, 1)[:1], 'thorough': conv_pairs(fn, 2)},
-       'params': {'quick': {'MaxC': 2, 'MaxK': 2}, 'thorough': {'MaxC': 3, 'MaxK': 3}}} for fn in CONVS] +
+       'params': {'quick': {'MaxC': 2, 'MaxK': 2}, 'thorough': {'MaxC': 2, 'MaxK': 2}}} for fn in CONVS] +
      [{'name': 'C18_Big_' + fn, 'types': {'quick': big_pairs(fn), 'thorough': conv_pairs(fn, 2) + big_pairs(fn)},
        'params': {'quick': {'BigFrames': 300}, 'thorough': {'BigFrames': 2048}}, 'covers': ['big']} for fn in CONVS] +
      [{'name': 'C18_BigIO', 'types': {'quick': ['int8', 'float64'], 'thorough': QUICK_T},
